@@ -139,7 +139,7 @@ def main():
     rb7 = f"{ROOT}/seeded7/ROBUSTNESS.tsv"
     if os.path.exists(rb7):
         o.append("\n## Seed robustness of the round-7 catches that depend on an interleaving or on real time\n")
-        o.append("Re-tried at the quick tier with `VERIF_SEED` = 7014, 14015 and 21016. For C01 the first column pair shows the harness before `c01-append-during-flush-then-shutdown` was added (MISSED with seed 7014), the rest the final harness.\n")
+        o.append("Re-tried at the quick tier with `VERIF_SEED` = 7014, 14015 and 21016. For C01 the seed-7014 column shows both the harness before `c01-append-during-flush-then-shutdown` was added (MISSED) and the final one (CAUGHT); every other cell is the final harness.\n")
         o.append("| change | check | seed 7014 | seed 14015 | seed 21016 | note |\n|---|---|---|---|---|---|")
         for l in open(rb7):
             f = l.rstrip("\n").split("\t")
